@@ -465,7 +465,9 @@ def check_program(rep, prog):
     # R14d root weight
     for fn in prog.functions:
         fr = fn.fref
-        if fr.get('rec') == 'parmcb::SPNode' and fr.get('ctor') and not fn.implicit and len(fn.param_ids) == 2:
+        if fr.get('rec') == 'parmcb::SPNode' and fr.get('ctor') and not fn.implicit and not fr.get('copy_ctor') and not fr.get('move_ctor') and \
+                len(fn.param_ids) in (1, 2) and not [ci for ci in fn.ctor_inits if 'field' in ci and prog.vars[ci['field']]['name'] in ('_pred', 'pred') and 'node' in ci and
+                                                     ex.var_of(ci['node']) in fn.param_ids]:
             what = 'the root node of a shortest-path tree has weight zero'
             for ci in fn.ctor_inits:
                 if 'field' in ci and prog.vars[ci['field']]['name'] in ('_weight', 'weight') and 'node' in ci:
@@ -642,6 +644,8 @@ def run(rep, tier):
                 rep.add(i.rule, i.site, i.function, i.what, i.status, i.detail, key=i.key)
         sub13 = type(rep)(rep.prop, rep.tier)
         for fn13 in prog.fns(c13.FN):
+            if c13.is_forwarder(fn13):
+                continue
             c13.check(sub13, prog, fn13)
         for i in sub13.instances.values():
             rep.add(i.rule, i.site, i.function, i.what, i.status, i.detail, key=i.key)
